@@ -757,3 +757,16 @@ CONTROLS['C14'] += [
       expr_replace('core', 'PrefetchDataset.__iter__', 'isinstance(catch_filter_exception, (list, tuple))',
                    'isinstance(catch_filter_exception, list)'), 'SB', tier='quick'),
 ]
+CONTROLS['C14'] += [
+    C('batch window handler also takes KeyError (T6)',
+      F('core', 'BatchDataset.__getitem__', lambda n: isinstance(n, ast.ExceptHandler) and A.src(n.type) == 'IndexError',
+        lambda n: (setattr(n, 'type', M.parse_expr('(IndexError, KeyError)')), n)[1]), 'tabled-handler-names-only', tier='quick'),
+]
+CONTROLS['C02'] += [
+    C('zip recognises only builtin ints as indices (IT)',
+      expr_replace('core', 'ZipDataset.__getitem__', 'isinstance(item, numbers.Integral)', 'isinstance(item, int)'), 'IT', tier='quick'),
+]
+CONTROLS['C18'] += [
+    C('groupby returns the groups sorted by their id (GB)',
+      expr_replace('core', 'Dataset.groupby', 'groups.items()', 'sorted(groups.items())'), 'group-ids-are-never-ordered', tier='quick'),
+]
